@@ -218,7 +218,9 @@ def finish(prop, tier, seed, k1, tres, t0, extra_errors=(), partial=False):
     _ind = _re.compile(r':(inv-init|inv-pres|variant|step|loop-exit|loop-break)@')
     per_fn = {}
     for name, a in agg.items():
-        if not a['bounded'] and 'refuted' in a['verdicts']:
+        # (an obligation that a recorded known finding names is that finding, whatever its kind: it neither triggers nor
+        # undergoes the demotion)
+        if not a['bounded'] and 'refuted' in a['verdicts'] and match_known(known, prop, a) is None:
             per_fn.setdefault(a['source'], []).append(a)
     demoted = set()
     for src, obs_ in per_fn.items():
